@@ -484,6 +484,9 @@ def all_bits():
     return out
 
 
+DEFAULT_SYNTAX_OF_MARKUP = 'html'
+
+
 def gen_table(tb):
     cases = []
     for ty in tb.base['SYNTAXES']:
@@ -500,6 +503,14 @@ def gen_table(tb):
                         c = cell_case(ty, syn, sec, bits, vis[0], vis[2], abbr=vis[1], kind='cell-visible')
                         c['class'] = cls
                         cases.append(c)
+                        if ty == 'markup' and syn == DEFAULT_SYNTAX_OF_MARKUP and not bits[5]:
+                            # the call's own config defines nothing at all (`expand(abbr, {}, global)`):
+                            # type and syntax are the documented defaults, every global layer still applies
+                            for t0, s0 in ((None, None), ('markup', None), (None, syn)):
+                                c = cell_case(ty, syn, sec, bits, vis[0], vis[2], abbr=vis[1], kind='cell-visible-defaulted')
+                                c['type'], c['syntax'] = t0, s0
+                                c['class'] = cls
+                                cases.append(c)
     return cases
 
 
